@@ -11,6 +11,9 @@ import harness.shim.skfem_shim  # noqa: F401
 from srlife import structural
 
 
+REAL = {d: getattr(structural, "solve_python_%dd" % d) for d in (1, 2, 3)}     # before any stub replaces them
+
+
 class FakeInterp:
     def __init__(self, v):
         self.value = v
@@ -115,7 +118,138 @@ def run_case(n, forced, ndim, failing, with_T=True, with_p=True, dtop=0.5):
     return out
 
 
-def enumerate_tree(n, forced, ndim, limit):
+ARRAYS = ("stress", "strain", "mechanical_strain", "thermal_strain", "history", "temperature", "energy", "dissipation")
+
+
+def content(state):
+    """the numerical content of a state (what a later sub-increment can read)"""
+    c = {k: np.copy(getattr(state, k)) for k in ARRAYS}
+    c["displacements"] = np.copy(state.displacements)
+    return c
+
+
+def same_content(a, b, edofs):
+    """equality of two state contents; displacements at the prescribed (Dirichlet) dofs are not compared, every attempt
+    overwrites them with its own boundary values before reading them"""
+    for k in ARRAYS:
+        if not np.array_equal(a[k], b[k]):
+            return False
+    mask = np.ones(a["displacements"].shape, dtype=bool)
+    mask[np.asarray(edofs, dtype=int)] = False
+    return np.array_equal(a["displacements"][mask], b["displacements"][mask])
+
+
+def run_real(n, forced, ndim, failing, with_T=True, dtop=0.01):
+    """The real per-increment solver on a small real tube.  A scripted failure is a genuine non-converged Newton solve
+    (unreachable tolerances, two iterations).  The state an attempt starts from is identified by its *content*: tag of the
+    last accepted state when the content is the accepted one, tag of a failed attempt when it is what that attempt left
+    behind, 9999 when it is neither."""
+    from neml import elasticity, interpolate, models
+    from srlife import receiver
+    failing = set(failing)
+    tube = receiver.Tube(5.0, 0.5, 2.5, 4, 6, 3, T0=0.0)
+    times = np.array([0.0, 1.0])
+    tube.set_times(times)
+    if ndim == 1:
+        tube.make_1D(tube.h / 2, 0.0)
+    elif ndim == 2:
+        tube.make_2D(tube.h / 2)
+    if with_T:
+        shp = tube.dim[: tube.ndim]
+        rs = np.linspace(0.0, 1.0, tube.nr).reshape((tube.nr,) + (1,) * (tube.ndim - 1))
+        tube.add_results("temperature", np.array([np.zeros(shp), 40.0 * rs + 10.0 + np.zeros(shp)]))
+    tube.set_pressure_bc(receiver.PressureBC(times, np.array([1.0, 4.0])))
+    mat = models.SmallStrainElasticity(elasticity.IsotropicLinearElasticModel(150000.0, "youngs", 0.3, "poissons"),
+                                       alpha=interpolate.ConstantInterpolate(1.0e-5))
+    solver = structural.PythonTubeSolver(max_divide=n, force_divide=forced, verbose=False)
+    solver.setup_tube(tube)
+    s0 = solver.init_state(tube, mat)
+    name = "solve_python_%dd" % ndim
+    real = REAL[ndim]
+    real_ad = structural.PythonSolver.assemble_dirichlet
+    edofs = [np.zeros((0,), dtype=int)]
+
+    def assemble(self):
+        real_ad(self)
+        edofs[0] = np.copy(self.edofs)
+
+    trace, ends, objs = [], {}, {}
+    acc = {"tag": 0, "content": None, "obj": None}
+    cap = 8 * 2 ** n + 64
+
+    def wrapped(state_n, t_n, p_n, state_np1, t_np1, p_np1, d, opts):
+        k = len(trace)
+        if k >= cap:
+            raise Runaway()
+        start = content(state_n)
+        if acc["content"] is None:          # the first attempt starts from the step-start state
+            acc["content"], acc["obj"] = start, state_n
+        rec = {"idx": k, "t_n": float(t_n), "t_np1": float(t_np1), "p_n": float(p_n), "p_np1": float(p_np1), "disp": float(d),
+               "T": [], "which": ndim, "ok": k not in failing}
+        trace.append(rec)
+        pending.append((rec, start, state_n))
+        try:
+            if k in failing:
+                real(state_n, t_n, p_n, state_np1, t_np1, p_np1, d, dict(opts, rtol=0.0, atol=0.0, miter=2))
+                raise AssertionError("unreachable tolerances were met")
+            real(state_n, t_n, p_n, state_np1, t_np1, p_np1, d, opts)
+        finally:
+            ends[k] = content(state_np1)
+            objs[k] = state_np1
+        if k not in failing:
+            acc["tag"], acc["content"], acc["obj"] = k + 1, ends[k], state_np1
+
+    pending = []
+
+    def classify():
+        """tags of the starting states, once the prescribed dofs are known"""
+        accepted_tag, accepted = 0, None
+        for rec, start, obj in pending:
+            if accepted is None:
+                accepted = start
+            if same_content(start, accepted, edofs[0]):
+                rec["from_state"], rec["from_converged"] = accepted_tag, True
+            else:
+                rec["from_converged"] = False
+                rec["from_state"] = 9999
+                for f in range(rec["idx"]):
+                    if not trace[f]["ok"] and same_content(start, ends[f], edofs[0]):
+                        rec["from_state"] = f + 1
+            if rec["ok"]:
+                accepted_tag, accepted = rec["idx"] + 1, ends[rec["idx"]]
+        return accepted_tag, accepted
+
+    setattr(structural, name, wrapped)
+    structural.PythonSolver.assemble_dirichlet = assemble
+    try:
+        try:
+            res = solver.solve(tube, 1, s0, dtop)
+            out = {"outcome": "return"}
+        except RuntimeError as e:
+            res = None
+            out = {"outcome": "raise", "msg": str(e)[:80]}
+        except Runaway:
+            res = None
+            out = {"outcome": "runaway", "msg": "more than %d attempts" % cap}
+        except Exception as e:
+            res = None
+            out = {"outcome": "error", "msg": repr(e)[:200]}
+    finally:
+        setattr(structural, name, real)
+        structural.PythonSolver.assemble_dirichlet = real_ad
+    tag, accepted = classify()
+    if res is not None:
+        out["final"] = next((k + 1 for k, o in objs.items() if o is res), 9999)
+        k = out["final"] - 1
+        out["final_converged"] = bool(k in ends and trace[k]["ok"] and same_content(content(res), ends[k], edofs[0]))
+    if out["outcome"] == "runaway":
+        trace = trace[:64]
+    out.update({"trace": trace, "n": n, "forced": forced, "ndim": ndim, "failing": sorted(failing), "with_T": False, "with_p": True,
+                "dtop": dtop, "real": True, "real_T": with_T})
+    return out
+
+
+def enumerate_tree(n, forced, ndim, limit, runner=None):
     """All distinct failure patterns the loop can observe (DFS over the
     decision tree: a pattern is extended only at attempts that are reached)."""
     results = []
@@ -126,7 +260,7 @@ def enumerate_tree(n, forced, ndim, limit):
     budget = 40 * 4 ** (n + 1) + 10000
     while stack and len(results) < limit:
         failing = stack.pop()
-        r = run_case(n, forced, ndim, failing)
+        r = (runner or run_case)(n, forced, ndim, failing)
         results.append(r)
         attempts += len(r["trace"])
         if r["outcome"] == "runaway" or attempts > budget:
@@ -142,7 +276,14 @@ def main():
     req = json.load(sys.stdin)
     out = {"cases": [], "complete": []}
     for job in req["jobs"]:
-        if job["kind"] == "tree":
+        if job["kind"] == "realtree":
+            res, complete = enumerate_tree(job["n"], job["forced"], job["ndim"], job.get("limit", 100000),
+                                           runner=lambda n, f, d, fl: run_real(n, f, d, fl, job.get("with_T", True)))
+            out["cases"].extend(res)
+            out["complete"].append(complete)
+        elif job["kind"] == "real":
+            out["cases"].append(run_real(job["n"], job["forced"], job["ndim"], job["failing"], job.get("with_T", True), job.get("dtop", 0.01)))
+        elif job["kind"] == "tree":
             res, complete = enumerate_tree(job["n"], job["forced"], job["ndim"], job.get("limit", 100000))
             out["cases"].extend(res)
             out["complete"].append(complete)
